@@ -32,7 +32,7 @@ def main():
     ctx = Stub()
     glob = LibDriver(ctx, tags, None, 'module', 'Tags(module)')
     local = LibDriver(ctx, tags, tags.TagLibrary(), 'instance', 'local')
-    tried, violation = [], None
+    tried, violation, local_decisions = [], None, []
     try:
         first = rng.choice(['global', 'local'])       # which library performs the very first add_tag of the process
         (glob if first == 'global' else local).add(rng.choice(ORDINARY))
@@ -43,9 +43,17 @@ def main():
         # closure: every name the library class itself defines is tried on BOTH libraries in every history
         closure = [n for n in dir(tags.TagLibrary) if not n.startswith('__') or n in ('__len__', '__class__', '__dict__', '__weakref__', '__init__')]
         rng.shuffle(closure)
-        for n in names + closure:
-            d = glob if rng.random() < (0.7 if n not in closure else 0.5) else local
+        # names that are attributes of the Tags MODULE (not of the library class): the global library may have to refuse them, a
+        # local library's decision about them must not depend on what the global library has been doing in this process
+        module_names = [n for n in vars(tags) if n not in dir(tags.TagLibrary)]
+        rng.shuffle(module_names)
+        for n in names + closure + module_names[:6]:
+            d = glob if rng.random() < (0.7 if n not in closure else 0.5) and n not in module_names else local
+            fresh = n not in d.ref
+            size = len(d.ref)
             d.add(n)
+            if d is local and fresh:
+                local_decisions.append([n, len(d.ref) > size])
             tried.append([d.label, n if len(n) < 40 else n[:20] + '...'])
             glob.full_check(rng)
             local.full_check(rng)
@@ -56,7 +64,7 @@ def main():
         violation = {'what': f'unexpected {type(e).__name__}: {e}', 'detail': {'traceback': traceback.format_exc()[-2000:]}}
     hostile = sum(1 for l, n in tried if l.startswith('Tags') and n not in ORDINARY)
     print(json.dumps({'counters': ctx.counters, 'evaluations': ctx.evaluations, 'violation': violation, 'tried': tried,
-                      'final': [x[:30] for x in glob.ref], 'nontrivial': hostile >= 3 and len(glob.ref) >= 4}))
+                      'final': [x[:30] for x in glob.ref], 'local_decisions': local_decisions, 'nontrivial': hostile >= 3 and len(glob.ref) >= 4}))
 
 
 main()
